@@ -58,6 +58,7 @@ type Run struct {
 	ref               *RefReplica
 	cacheOnly         bool
 	Trace             []sim.CallRec
+	SnapCases         []string // C20: observed rebuild plans (Corr/SnapCache.v)
 	FirstNoPresence   bool
 	H                 *History
 	R                 []*Replica
